@@ -90,11 +90,9 @@ pub fn eval(ctx: &mut Ctx, c: &EncCase, tag: &str, use_ropt: bool, strict: bool)
         }
     }
     if c.mask & 1 == 0 {
-        ctx.count("ascii_disabled_bounds_only");
-        if bound.is_some() {
-            ctx.nontrivial(c.key());
-        }
-        return;
+        // R-OPT then searches encodings without any ASCII data codeword (a subset of what any reading of "only the
+        // enabled modes" allows), so a smaller symbol it exhibits is a smaller symbol under every reading
+        ctx.count("ascii_disabled_evaluated_without_ascii_codewords");
     }
     if !use_ropt {
         ctx.count("long_input_bounds_only");
@@ -264,6 +262,16 @@ pub fn run(ctx: &mut Ctx) {
             i += ctx.nshards;
         }
     }
+    // the same kind of family under mode sets without ASCII (reduced lengths; deterministic, strict, exact cases)
+    {
+        let total = family3n_count();
+        let mut i = ctx.shard;
+        while i < total {
+            let c = family3n_case(i);
+            eval(ctx, &c, "structured_three_run_family_without_ascii", true, true);
+            i += ctx.nshards;
+        }
+    }
     // fixed corpus (independent of VERIF_SEED and of the shard count): violations are keyed by exact case
     let ncorpus = 60_000;
     for i in 0..ncorpus {
@@ -329,6 +337,39 @@ pub fn family3_case(mut i: usize) -> EncCase {
         }
     }
     EncCase { input, list: "default".to_string(), mask: 63, macros: false, fnc1: false, eci: None, order: 0, prelude: 0, skipdef: false, entry: 0 }
+}
+
+const F3N_MASKS: [u8; 6] = [6, 38, 36, 48, 34, 62];
+const F3N_A: [usize; 4] = [0, 3, 6, 9];
+const F3N_B: [usize; 4] = [1, 3, 6, 9];
+const F3N_C: [usize; 3] = [0, 2, 5];
+pub fn family3n_count() -> usize {
+    F3N_MASKS.len() * 7 * 6 * 6 * F3N_A.len() * F3N_B.len() * F3N_C.len()
+}
+pub fn family3n_case(mut i: usize) -> EncCase {
+    let mask = F3N_MASKS[i % F3N_MASKS.len()];
+    i /= F3N_MASKS.len();
+    let c = F3N_C[i % F3N_C.len()];
+    i /= F3N_C.len();
+    let b = F3N_B[i % F3N_B.len()];
+    i /= F3N_B.len();
+    let a = F3N_A[i % F3N_A.len()];
+    i /= F3N_A.len();
+    let kc = i % 6;
+    i /= 6;
+    let kb = i % 6;
+    i /= 6;
+    let ca = i % 7;
+    let cb = (ca + 1 + kb) % 7;
+    let cc = (cb + 1 + kc) % 7;
+    let mut input = Vec::with_capacity(a + b + c);
+    for (cls, n, off) in [(ca, a, 0usize), (cb, b, 3), (cc, c, 5)] {
+        let al = F3_CLASSES[cls];
+        for j in 0..n {
+            input.push(al[(j + off) % al.len()]);
+        }
+    }
+    EncCase { input, list: "default".to_string(), mask, macros: false, fnc1: false, eci: None, order: 0, prelude: 0, skipdef: false, entry: 0 }
 }
 
 fn gen_small_r(rng: &mut crate::rng::Rng, max: usize) -> Vec<u8> {
